@@ -19,6 +19,10 @@ type Subscription struct {
 	sub   Subscriber
 	field *Field
 	args  map[string]interface{}
+
+	// vars are the variables of the request that subscribed, events are
+	// resolved with them.
+	vars map[string]interface{}
 }
 
 // NewSubscription creates a new subscription. It should be called in a
